@@ -179,6 +179,7 @@ class _Scheme(Spec):
         return [
             ("len(Y) == len(X)", V.s_cmp("==", a.Y.shape[0], n)),
             ("len(Z) == len(X)", V.s_cmp("==", a.Z.shape[0], n)),
+            ("C14/C17: the positions passed are index-aligned with the particle sequence the forcing was evaluated for (cached K, A: len(K) == len(X))", V.s_cmp("==", getattr(a.force, "nK", n), n)),
             ("the loaded grid has a non-empty valid region", grid.attrs["imax"] >= 3),
             ("metric positive", ForallP(n, lambda p: z3.And(dx(p) > 0, dy(p) > 0))),
             ("every position lies in the valid region", valid_pos(grid, a.X, a.Y)),
